@@ -77,10 +77,49 @@ fn emit_io_probe(sh: &mut Shards, ev: &str, extra: &str, w: usize, h: usize, inp
     emit_io(sh, ev, &format!("\"probe\":1,{extra}"), w, h, &inp_sel, &outs_sel, bits);
 }
 fn big_unit(rng: &mut Rng, lo: f32, hi: f32) -> (usize, usize, Vec<[f32; 3]>, Vec<usize>) {
-    let (w, h) = crate::util::BIG;
-    let px: Vec<[f32; 3]> = (0..w * h).map(|_| [rng.f32_in(lo, hi), rng.f32_in(lo, hi), rng.f32_in(lo, hi)]).collect();
-    let idx = crate::util::probe_indices(w * h, w, rng);
-    (w, h, px, idx)
+    let (w, h) = crate::util::big(rng.below(4) as usize & 2);
+    let n = w * h;
+    // interesting pixels at both ends of the frame: corners, greys, near-black ladders, single channels
+    let mut head: Vec<[f32; 3]> = Vec::new();
+    for a in [lo, 0.0, 1.0, hi] {
+        for b in [lo, 0.0, 1.0, hi] {
+            head.push([a, b, 0.5 * (a + b)]);
+            head.push([b, a, a]);
+        }
+    }
+    for e in 0..24 {
+        let t = 2f32.powi(-26 + e);
+        head.push([t, t, t]);
+        head.push([t, 0.0, 0.0]);
+        head.push([0.0, t, 2.0 * t]);
+        head.push([1.0 - t, 1.0, 1.0 - t]);
+    }
+    let mut px: Vec<[f32; 3]> = Vec::with_capacity(n);
+    px.extend(head.iter().copied());
+    while px.len() < n - head.len() {
+        px.push([rng.f32_in(lo, hi), rng.f32_in(lo, hi), rng.f32_in(lo, hi)]);
+    }
+    px.extend(head.iter().rev().copied());
+    let mut idx: std::collections::BTreeSet<usize> = crate::util::probe_indices(n, w, rng).into_iter().collect();
+    for i in (0..head.len()).step_by(2) {
+        idx.insert(i);
+        idx.insert(n - 1 - i);
+    }
+    (w, h, px, idx.into_iter().collect())
+}
+
+/// "echo" images: each pixel p is followed by the library's own result for p and by repeats - [p, f(p), p, p, f(p), f(p)] -
+/// (run-length / last-value shortcuts, state carried from one pixel to the next)
+fn echo_image(src: &[[f32; 3]], f: impl Fn(&[[f32; 3]]) -> Result<Vec<[f32; 3]>, &'static str>) -> Vec<[f32; 3]> {
+    let mut v = Vec::new();
+    for p in src {
+        if let Ok(q) = f(&[*p]) {
+            if q.len() == 1 && q[0].iter().all(|x| x.is_finite()) {
+                v.extend([*p, q[0], *p, *p, q[0], q[0]]);
+            }
+        }
+    }
+    v
 }
 
 // ------------------------------------------------------------------------------------------
@@ -124,6 +163,11 @@ pub fn gen_c04(sh: &mut Shards, o: &Opts) -> serde_json::Value {
     }
     let (w, h, big, idx) = big_unit(&mut rng, 0.0, 4.0);
     emit_io_probe(sh, "xyb", "", w, h, &big, &[("out", xyb_of(&big, w, h))], &idx, false);
+    let echo = echo_image(&lattice(4, 0.0, 1.0), |p| xyb_of(p, 1, 1));
+    for (at, w, h) in cut_images(echo.len(), 5) {
+        let img = &echo[at..at + w * h];
+        emit_io(sh, "xyb", "\"echo\":1,", w, h, img, &[("out", xyb_of(img, w, h))], false);
+    }
     serde_json::json!({"pixels": n + (w * h) as u64, "distinct": n})
 }
 
@@ -154,6 +198,14 @@ pub fn gen_c05(sh: &mut Shards, o: &Opts) -> serde_json::Value {
     let mid = xyb_of(&big, w, h);
     let back = mid.clone().and_then(|m| lin_of_xyb(&m, w, h));
     emit_io_probe(sh, "xybrt", "", w, h, &big, &[("mid", mid), ("back", back)], &idx, false);
+    // echo: p followed by (xyb(p) clamped into the unit cube) and repeats
+    let echo: Vec<[f32; 3]> = echo_image(&lattice(4, 0.0, 1.0), |p| xyb_of(p, 1, 1)).into_iter().map(|p| [p[0].clamp(0.0, 1.0), p[1].clamp(0.0, 1.0), p[2].clamp(0.0, 1.0)]).collect();
+    for (at, w, h) in cut_images(echo.len(), 6) {
+        let img = &echo[at..at + w * h];
+        let mid = xyb_of(img, w, h);
+        let back = mid.clone().and_then(|m| lin_of_xyb(&m, w, h));
+        emit_io(sh, "xybrt", "\"echo\":1,", w, h, img, &[("mid", mid), ("back", back)], false);
+    }
     serde_json::json!({"pixels": n + (w * h) as u64, "distinct": n})
 }
 
@@ -235,6 +287,23 @@ pub fn gen_c06(sh: &mut Shards, o: &Opts) -> serde_json::Value {
         let back = a.clone().and_then(|m| prim_to709(c, &m, w, h));
         emit_io_probe(sh, "prim", &format!("\"cp\":{c},\"dir\":\"from709\","), w, h, &big, &[("out", a), ("back", back)], &idx, true);
         n += 2 * (w * h) as u64;
+    }
+    // call-order histories on one thread: a conversion with primaries a, then one with primaries b (every ordered pair,
+    // every combination of directions); b is judged.  Caches keyed on (too little of) the configuration show here.
+    let small: Vec<[f32; 3]> = vec![[1.0, 1.0, 1.0], [0.18, 0.18, 0.18], [1.0, 0.0, 0.0], [0.0, 1.0, 0.0], [0.0, 0.0, 1.0], [0.25, 0.5, 0.75], [-0.25, 1.5, 0.1]];
+    for &a in &CP_SUP {
+        for &b in &CP_SUP {
+            if a == b {
+                continue;
+            }
+            for (da, db) in [(0, 0), (1, 1), (0, 1), (1, 0)] {
+                let _ = if da == 0 { prim_to709(a, &small, small.len(), 1) } else { prim_from709(a, &small, small.len(), 1) };
+                let (dir, out) = if db == 0 { ("to709", prim_to709(b, &small, small.len(), 1)) } else { ("from709", prim_from709(b, &small, small.len(), 1)) };
+                let back = out.clone().and_then(|m| if db == 0 { prim_from709(b, &m, small.len(), 1) } else { prim_to709(b, &m, small.len(), 1) });
+                emit_io(sh, "prim", &format!("\"cp\":{b},\"dir\":\"{dir}\",\"after\":[{a},{da}],"), small.len(), 1, &small, &[("out", out), ("back", back)], true);
+                n += small.len() as u64;
+            }
+        }
     }
     serde_json::json!({"pixels": n, "primaries_direction_pairs": 22, "distinct": n})
 }
@@ -318,6 +387,17 @@ pub fn gen_c17(sh: &mut Shards, o: &Opts) -> serde_json::Value {
         let mid = hsl_of(&big, w, h);
         let back = mid.clone().and_then(|m| lin_of_hsl(&m, w, h));
         emit_io_probe(sh, "hsl", "", w, h, &big, &[("out", mid), ("back", back)], &idx, false);
+        // runs of identical pixels and alternations (state carried from one pixel to the next)
+        let mut runs: Vec<[f32; 3]> = Vec::new();
+        for p in lattice(3, 0.0, 1.0) {
+            runs.extend([p, p, [p[2], p[0], p[1]], p, p, p]);
+        }
+        for (at, w, h) in cut_images(runs.len(), 8) {
+            let img = &runs[at..at + w * h];
+            let mid = hsl_of(img, w, h);
+            let back = mid.clone().and_then(|m| lin_of_hsl(&m, w, h));
+            emit_io(sh, "hsl", "\"runs\":1,", w, h, img, &[("out", mid), ("back", back)], false);
+        }
     }
     // reverse direction from HSL triples: L = 0 is black, L = 1 is white for any H, S in range
     let mut hs: Vec<[f32; 3]> = Vec::new();
